@@ -245,6 +245,9 @@ def api_case_ops(kind, walk, rng, with_twin=True, rounds=None, seed=None):
         if op == "fill_bytes":
             # the destination slice starts at varying offsets from an 8-byte boundary
             ops.append({"op": op, "g": 1, "n": n, "off": rng.choice([0, 0, 1, 2, 3, 4, 5, 6, 7])})
+        elif op == "set_rounds":
+            # JitterRng only: the round count it already has (the twin collected every word with it), set again
+            ops.append({"op": op, "g": 1, "r": r})
         else:
             ops.append({"op": op, "g": 1})
     return ops
@@ -640,6 +643,32 @@ def c14_ctor_corpus(seed, tier):
                    [{"op": "src", "s": 1, "bytes": [rng.getrandbits(8) for _ in range(3 * n)], "fallible": True, "fail_at": fail_at, "partial": partial},
                     {"op": "try_from_rng", "g": 2, "kind": kind, "s": 1}, {"op": "try_from_rng", "g": 3, "kind": kind, "s": 1}],
                    weight=20 + (600 if kind.startswith("Isaac") else 0))
+    zero_run_source_cases(S, seed)
+    return S
+
+
+def zero_run_source_cases(S, seed, kinds=None):
+    """source RNGs that deliver a long run of zero bytes before anything else: 1 200, 3 000 and 70 000 seeds' worth
+    (the last on a fresh thread with the default stack).  A type that redraws an all-zero block draws that many
+    times; every other type takes the zeros as an ordinary (all-zero) seed."""
+    rng = random.Random(seed * 1000003 + 1415)
+    for kind in (kinds or ALL_SEEDABLE):
+        if kind.startswith("Isaac") and kinds is None:
+            continue
+        n = FROMRNG_LEN.get(kind, SEEDLEN[kind])
+        nat = native_op(kind)
+        for blocks, thread in ((1200, False), (3000, False), (70000, True)):
+            if blocks > 3000 and kind != "XorShiftRng":
+                continue
+            for ctor, fallible in (("from_rng", False), ("try_from_rng", True)):
+                if thread and fallible:
+                    continue
+                o = {"op": ctor, "g": 1, "kind": kind, "s": 1}
+                if thread:
+                    o["on_thread"] = True
+                S.case("%s %s from a source starting with %d zero blocks%s" % (kind, ctor, blocks, " (on a fresh thread)" if thread else ""),
+                       [{"op": "src", "s": 1, "bytes": [rng.getrandbits(8) | 1 for _ in range(2 * n)], "lead": blocks * n - rng.choice((0, 0, 3)), "fallible": fallible},
+                        o, {"op": nat, "g": 1, "n": 3}], weight=300 + blocks // 4)
     return S
 
 
@@ -664,7 +693,7 @@ def c14_alg_corpus(seed, tier):
 
 
 # ---------------------------------------------------------------- C13: test_timer scripts
-def tt_script(rng, mean, zr=False, zd=False, back=0, mod=0, stuck=0, negalt=False, backmode="small", pauses=0):
+def tt_script(rng, mean, zr=False, zd=False, back=0, mod=0, stuck=0, negalt=False, backmode="small", pauses=0, negfwd=False):
     """A 1601-reading timer script realising (approximately) an abstract summary of the 400 probes:
     probe j reads time, a, b, time2.  Evaluated probes (101..400) get deltas alternating x, x+mean
     so that the mean |delta variation| is `mean`; counts are planted on top.  The exact summary is
@@ -683,6 +712,10 @@ def tt_script(rng, mean, zr=False, zd=False, back=0, mod=0, stuck=0, negalt=Fals
             if negalt:       # deltas alternate -a, +b with a + b = v  (needs 2^32-scale variation)
                 a = v // 2
                 d = -a if i % 2 == 0 else (v - a)
+                if negfwd:
+                    # the same 32-bit deltas from a clock that only runs forwards: a step of 2^32 - a truncates to -a
+                    a = (v + 1) // 2
+                    d = (1 << 32) - a if i % 2 == 0 else (v - a)
                 if d == 0:
                     d = 1
             else:
@@ -721,6 +754,10 @@ def c13_corpus(seed, tier, cases):
     for c in cases:
         add("tt mean=%d zr=%s zd=%s back=%d mod=%d stuck=%d" % (c["mean"], c["zr"], c["zd"], c["back"], c["mod"], c["stuck"]),
             tt_script(rng, c["mean"], c["zr"], c["zd"], c["back"], c["mod"], c["stuck"], negalt=c["mean"] >= (1 << 30)))
+    # mean variations of 2^31 and more from a clock that never steps back (32-bit deltas alternating between large
+    # negative and large positive values): the only way to the rounds estimate with such a mean
+    for v in ((1 << 30) + 7, (1 << 31) - 2, (1 << 31) - 1, 1 << 31, (1 << 31) + 1, (1 << 31) + 5, 3 << 30, (1 << 32) - 2, (1 << 32) - 1):
+        add("tt forward-only clock, mean variation %d" % v, tt_script(rng, v, negalt=True, negfwd=True))
     # the order of the two readings of a probe vs the sign of their 32-bit truncated difference
     for back, mode in ((3, "wrap32"), (4, "wrap32"), (9, "wrap32"), (4, "wrap30"), (3, "wrap30")):
         add("tt backwards by ~2^32 x%d (%s)" % (back, mode), tt_script(rng, 40 + back, back=back, backmode=mode))
@@ -1356,7 +1393,11 @@ def far_corpus(seed, tier, quick_kinds=None):
             ops += [{"op": "skip", "g": 1, "bytes": 40 * blk, "via": nat}, {"op": "skip", "g": 2, "bytes": 40 * blk, "via": "fill", "mirror": 1}]
             ops += lockstep([("next_u64", 0), ("next_u32", 0), ("fill_bytes", 7)], [1, 2])
             if kind in HAS_EQ:
-                ops.append({"op": "eq", "a": 1, "b": 2})
+                # out there a generator still equals the one it ran in lock step with, and a clone made there (both ways round)
+                ops += [{"op": "eq", "a": 1, "b": 2}, {"op": "eq", "a": 2, "b": 1}, {"op": "clone", "g": 1, "to": 3},
+                        {"op": "eq", "a": 1, "b": 3}, {"op": "eq", "a": 3, "b": 1}]
+                ops += lockstep([("next_u32", 0), ("fill_bytes", blk + 1)], [1, 3])
+                ops += [{"op": "eq", "a": 3, "b": 1}]
             S.case("%s far position %d bytes" % (kind, n), ops, weight=40 + n // 200000)
     return S
 
@@ -1511,6 +1552,40 @@ def c10_perturbed(images, rng):
             ops += [{"op": "de_image", "kind": kind, "image": img, "to": 3}, {"op": "de_image", "kind": kind, "image": img, "to": 4}, {"op": "eq", "a": 3, "b": 4}]
             ops += lockstep([("generate", 0)], [3, 4])
             S.case("%s perturbed %s" % (kind, name), ops, weight=300)
+    # two fields changed at once so that a sum, a difference or an xor of them is unchanged (a comparison of a
+    # combination of fields instead of the fields), and two fields exchanged
+    for kind, img in images.items():
+        wb = 4 if kind == "IsaacCore" else 8
+        if len(img) != 259 * wb:
+            continue
+        mask = (1 << (8 * wb)) - 1
+        rd = lambda im, i: int.from_bytes(bytes(im[i * wb:(i + 1) * wb]), "little")
+
+        def wr(im, i, v):
+            im[i * wb:(i + 1) * wb] = list((v & mask).to_bytes(wb, "little"))
+        names = {256: "a", 257: "b", 258: "c"}
+        pairs = [(256, 257), (257, 258), (256, 258), (0, 1), (255, 256), (7, 135), (0, 255)]
+        for (i, j) in pairs:
+            for mode in ("sum", "difference", "xor", "exchanged"):
+                for d in ((1, rng.getrandbits(8 * wb) | 2) if mode != "exchanged" else (0,)):
+                    im2 = list(img)
+                    x, y = rd(img, i), rd(img, j)
+                    if mode == "sum":
+                        wr(im2, i, x + d), wr(im2, j, y - d)
+                    elif mode == "difference":
+                        wr(im2, i, x + d), wr(im2, j, y + d)
+                    elif mode == "xor":
+                        wr(im2, i, x ^ d), wr(im2, j, y ^ d)
+                    else:
+                        wr(im2, i, y), wr(im2, j, x)
+                    if im2 == list(img):
+                        continue
+                    ni, nj = names.get(i, "mem[%d]" % i), names.get(j, "mem[%d]" % j)
+                    ops = [{"op": "de_image", "kind": kind, "image": img, "to": 1}, {"op": "de_image", "kind": kind, "image": im2, "to": 2},
+                           {"op": "eq", "a": 1, "b": 2}, {"op": "eq", "a": 2, "b": 1}]
+                    ops += lockstep([("generate", 0), ("generate", 0), ("generate", 0)], [1, 2])
+                    S.case("%s: %s and %s changed together, %s unchanged (d=%d)" % (kind, ni, nj, mode, d) if mode != "exchanged" else
+                           "%s: %s and %s exchanged" % (kind, ni, nj), ops, weight=300)
     for kind, wb in (("IsaacArrayU32", 4), ("IsaacArrayU64", 8)):
         base = [rng.getrandbits(8) for _ in range(256 * wb)]
         for name, off in (("first element", 0), ("last element", 255 * wb), ("last byte", 256 * wb - 1), ("middle", 100 * wb + 1)):
@@ -1566,10 +1641,12 @@ def c11_corpus(seed, tier, node_paths_by_kind):
         ops = pre + [{"op": "clone", "g": 1, "to": 4}, {"op": "ser", "g": 1},
                      {"op": "de", "g": 1, "to": 2, "fmt": "bincode"}, {"op": "de", "g": 1, "to": 3, "fmt": "json"},
                      # a snapshot OF the restored generator, before anything else touched it (second generation)
-                     {"op": "ser", "g": 2}, {"op": "de", "g": 2, "to": 6, "fmt": "bincode"}]
+                     {"op": "ser", "g": 2}, {"op": "de", "g": 2, "to": 6, "fmt": "bincode"},
+                     # the snapshot as one field of a larger record, between two integers
+                     {"op": "de", "g": 2, "to": 9, "fmt": "embedded"}]
         if kind in HAS_EQ:
             ops += [{"op": "eq", "a": 1, "b": 2}, {"op": "eq", "a": 1, "b": 3}]
-        ops += lockstep(suffix_ops(kind, rng, blockbytes), [1, 4, 2, 3, 6])
+        ops += lockstep(suffix_ops(kind, rng, blockbytes), [1, 4, 2, 3, 6, 9])
         if kind in HAS_EQ:
             ops += [{"op": "eq", "a": 1, "b": 2}, {"op": "eq", "a": 2, "b": 3}]
         # snapshot of the restored generator again (round trip of a round trip)
@@ -1756,6 +1833,7 @@ def c18_corpora(seed, tier):
     for c in c09_corpus(seed, "quick").cases:
         if "seed_from_u64" in c["label"] or c["label"].startswith("Xo") or "XorShift" in c["label"]:
             alg.case(c["label"], c["ops"], c["weight"])
+    zero_run_source_cases(alg, seed, ["XorShiftRng", "Xoshiro256PlusPlus", "Xoroshiro64Star"])
     api = Sched()
     for kind in ALL_SEEDABLE:
         bb = {"Hc128Rng": 64, "IsaacRng": 1024, "Isaac64Rng": 2048}.get(kind)
